@@ -71,7 +71,7 @@ G0 == [tr |-> -1, brought |-> 0, taken |-> 0, banks |-> <<>>, bankIds |-> {}, la
        missed |-> <<>>, missedIds |-> {}, ext |-> FALSE, closedBetween |-> FALSE, lastStatus |-> "none",
        cnt |-> <<>>, cntIds |-> {}, actEvents |-> <<>>, spyCalls |-> <<>>, inGate |-> "", blindSet |-> <<>>, blindSetInGate |-> FALSE,
        leftSince |-> {}, faults |-> 0, lastUpd |-> 0, kfMidLeave |-> FALSE,
-       withholdSt |-> <<>>, settledSt |-> <<>>, afterFire |-> FALSE, fireSt |-> <<>>]
+       withholdSt |-> <<>>, settledSt |-> <<>>, openSt |-> <<>>, afterFire |-> FALSE, fireSt |-> <<>>]
 
 Fn(f, ids, x, d) == IF x \in ids THEN f[x] ELSE d
 ZeroCnt == [at |-> 0, ct |-> 0, kt |-> 0, fold |-> FALSE, fr |-> ""]
@@ -94,8 +94,8 @@ Upd(gg, k) ==
              THEN [gg EXCEPT !.brought = TotalBank(st) + gg.taken]      \* a refused call changed the table: judged by C03, ledger re-based
         ELSE gg
       g2 == \* ---- external control requests
-        IF t.ev \in {"ret:PauseTable", "ret:CloseTable", "ret:ReleaseTable"}
-        THEN [g1 EXCEPT !.ext = TRUE, !.closedBetween = @ \/ (t.ev # "ret:PauseTable" /\ ~g1.handLive)]
+        IF t.ev \in {"call:PauseTable", "call:CloseTable", "call:ReleaseTable"}
+        THEN [g1 EXCEPT !.ext = TRUE, !.closedBetween = @ \/ (t.ev # "call:PauseTable" /\ ~g1.handLive)]
         ELSE IF t.ev = "ret:UpdateBlind" THEN [g1 EXCEPT !.blindSet = t.a.blind, !.blindSetInGate = (g1.inGate # "")]
         ELSE IF t.ev = "parked" THEN [g1 EXCEPT !.inGate = t.a.kind]
         ELSE IF t.ev = "released" THEN [g1 EXCEPT !.inGate = ""]
@@ -119,7 +119,7 @@ Upd(gg, k) ==
         ELSE
         LET gA == IF IsOpenSnap(t)
                   THEN [g3 EXCEPT !.lastGc = st.gc, !.handLive = TRUE, !.handIds = GpiIds(st), !.openBank = Banks(st),
-                                  !.openBlind = st.blind, !.lastParts = PartIds(st), !.cnt = <<>>, !.cntIds = {}, !.leftSince = {},
+                                  !.openBlind = st.blind, !.lastParts = PartIds(st), !.openSt = <<st>>, !.cnt = <<>>, !.cntIds = {}, !.leftSince = {},
                                   !.openLabels = [id \in Ids(st) |-> P(st, id).pos], 
                                   !.missed = [id \in Ids(st) |->
                                       IF P(st, id).part \/ ~(P(st, id).in /\ P(st, id).bank > 0) THEN 0
@@ -187,7 +187,10 @@ C01_settleCredit(t, gg) ==
 
 \* ---------------------------------------------------------------- C02
 Rotations(s) == {[i \in 1..Len(s) |-> s[((i - 1 + k) % Len(s)) + 1]] : k \in 0..(Len(s) - 1)}
-SortedSeats(S) == CHOOSE sq \in [1..Cardinality(S) -> S] : \A a, b \in 1..Cardinality(S) : a < b => sq[a] < sq[b]
+\* the elements of S as a sequence in increasing order of ord (ord injective on S), built by rank
+SeqByRank(S, ord(_)) == [k \in 1..Cardinality(S) |-> CHOOSE s \in S : Cardinality({u \in S : ord(u) < ord(s)}) = k - 1]
+Ident(x) == x
+SortedSeats(S) == SeqByRank(S, Ident)
 C02_openList(t) ==
   IsOpenSnap(t) =>
     LET st == t.st  ids == GpiIds(st) IN
@@ -247,7 +250,7 @@ SlotSeats(st) == {s \in 0..(st.nseat - 1) : s \in {st.dealer, st.sb, st.bb} \/ P
 \* k-th slot seat clockwise starting at the bb seat (k = 1 is the bb seat itself)
 SlotSeq(st) == LET S == SlotSeats(st)
                    ord(s) == (s - st.bb + st.nseat) % st.nseat
-               IN CHOOSE sq \in [1..Cardinality(S) -> S] : \A a, b \in 1..Cardinality(S) : a < b => ord(sq[a]) < ord(sq[b])
+               IN SeqByRank(S, ord)
 C06_labels(t) ==
   (IsOpenSnap(t) /\ t.st.rule # "short_deck") =>
     LET st == t.st  sq == SlotSeq(st)  n == Len(sq)  lab == SlotLabels(n) IN
@@ -270,8 +273,13 @@ C06_nextBB(t) ==
     LET st == t.st
         S == {s \in 0..(st.nseat - 1) : st.seatmap[s + 1] >= 0 /\ st.players[st.seatmap[s + 1] + 1].bank > 0}
         ord(s) == (s - st.sm.bb - 1 + 2 * st.nseat) % st.nseat
-        sq == CHOOSE q \in [1..Cardinality(S) -> S] : \A a, b \in 1..Cardinality(S) : a < b => ord(q[a]) < ord(q[b])
+        sq == SeqByRank(S, ord)
     IN st.nextbb = [k \in 1..Cardinality(S) |-> st.players[st.seatmap[sq[k] + 1] + 1].id]
+\* recorded finding: a dealt-in player sits strictly between the dealer seat and the small-blind seat (a player who
+\* reserved before positions were set and sat in later); the dealer label then goes to him, not to the dealer seat
+KF_DealtInBetweenDealerAndSB(st) ==
+  st.dealer # st.sb /\ st.dealer \in 0..(st.nseat - 1) /\ st.sb \in 0..(st.nseat - 1)
+  /\ \E s \in 0..(st.nseat - 1) : PartAtSeat(st, s) /\ StrictlyBetween(st.nseat, st.dealer, st.sb, s)
 \* the recorded rule finding "dealer seat = big-blind seat" makes slots ambiguous
 KF_DealerOnBBTable(st) == st.dealer = st.bb /\ st.dealer # st.sb
 
@@ -309,7 +317,10 @@ C08_gateParticipants(t) ==
     (Cardinality(AliveInIds(t.st)) >= 2 => Len(t.st.gate.parts) >= 2)
 ExpectOpen(st) == /\ st.status = "table_game_standby" /\ Cardinality(AliveInIds(st)) >= 2
                   /\ BlindIsSet(st.blind) /\ ~BlindIsBreak(st.blind) /\ ~st.released
-C08_noWedge(t, gg) == (t.ev = "noopen" /\ ~gg.ext) => ~ExpectOpen(t.st)
+\* the proviso ("at least two seated-in players have chips", no break) is taken when the continue handler ran
+C08_noWedge(t, gg) ==
+  (t.ev = "noopen" /\ ~gg.ext /\ Len(gg.fireSt) = 1 /\ gg.fireSt[1].gc = t.st.gc
+   /\ ~ShouldPause(gg.fireSt[1]) /\ Cardinality(AliveInIds(gg.fireSt[1])) >= 2) => ~ExpectOpen(t.st)
 KF_RotationRefused(st) == \* the seat manager would refuse the rotation although two seated-in players have chips (KF-C04-waiting-newcomer)
   LET s == SmOf(st)  r == RotateF(s) IN s.inited /\ r.res # "ok" /\ AliveCount(s) >= 2
 
@@ -354,7 +365,9 @@ C11_askedSets(t, gg) ==
 C11_noEarlyAdvance(t, gg) ==
   (t.ev = "withheld" /\ Len(gg.withholdSt) = 1 /\ t.a.amt < 16000 /\ HasHand(gg.withholdSt[1])) =>
     HasHand(t.st) /\ H(t.st).upd = H(gg.withholdSt[1]).upd /\ H(t.st).ev = H(gg.withholdSt[1]).ev
-C11_progress(t, gg) == (t.ev \in {"stuck", "idle"} /\ gg.faults = 0 /\ ~gg.ext) => FALSE
+\* the driver gave up waiting although every asked player had answered / a produced hand state was never handled
+HandStall(t) == t.ev = "idle" \/ (t.ev = "stuck" /\ t.a.kind = "hand")
+C11_progress(t, gg) == (HandStall(t) /\ gg.faults = 0 /\ ~gg.ext) => FALSE
 C11_resultComplete(t, gg) == IsSettledSnap(t) => Len(ResultOf(t.st)) = Len(gg.handIds) /\ Len(H(t.st).p) = Len(gg.handIds)
 
 \* ---------------------------------------------------------------- C12
@@ -424,7 +437,8 @@ CheckLine(k, gg) ==
      /\ Clause("C05_maxMissed", C05_maxMissed(t, gg), "", k)
      /\ Clause("C05_newcomerFlag", C05_newcomerFlag(t), "", k)
      /\ Clause("C06_labels", C06_labels(t), IF KF_DealerOnBBTable(st) THEN "KF-C04-dealer-on-bb" ELSE "", k)
-     /\ Clause("C06_engineLabels", C06_engineLabels(t, gg), "", k)
+     /\ Clause("C06_engineLabels", C06_engineLabels(t, gg),
+               IF Len(gg.openSt) = 1 /\ KF_DealtInBetweenDealerAndSB(gg.openSt[1]) THEN "KF-C06-active-between-dealer-and-sb" ELSE "", k)
      /\ Clause("C06_nextBB", C06_nextBB(t), "", k)
      /\ Clause("C07_statusStep", C07_statusStep(t, gg), "", k)
      /\ Clause("C07_gcStep", C07_gcStep(t, gg), "", k)
